@@ -411,6 +411,8 @@ func init() {
 			elin.CheckScalarPack(run, p, "LIN")
 			elin.CheckMul(run, p, "MUL") // both radices compute the same polynomial of their inputs (mod p resp. mod L)
 		}
+		pw := run.Rule("PORTABLE-width", "no 64-bit integer is converted to a platform-sized integer (the 32-bit targets would compute something else)", 450).RequireControl(1)
+		checkPortableWidth(c.Prog(cfgs[0]), pw)
 		sig := run.Rule("SIB-decision", "functions defined in different files per configuration agree on argument checks, outcome classes and written parameters", 20)
 		run.Sample(checkDecisionSignatures(c, sig, cfgs, stubs))
 		checkKeccakSibling(c, run)
